@@ -160,7 +160,17 @@ func execProj(c *Case) (r workerResult) {
 			r.Detail = panicSummary(x)
 		}
 	}()
-	co := core.NewJApiCore(fs.NewFile(rootAbs, c.Files[c.Root]))
+	var opts []core.Option
+	if len(c.Args) > 2 && c.Args[2] == "bans" && c.Args[1] != "" {
+		var kinds []directive.Enumeration
+		for _, k := range strings.Split(c.Args[1], ",") {
+			if e, ok := kindByKeyword(k); ok {
+				kinds = append(kinds, e)
+			}
+		}
+		opts = append(opts, core.WithBannedDirectives(kinds...))
+	}
+	co := core.NewJApiCore(fs.NewFile(rootAbs, c.Files[c.Root]), opts...)
 	mode := "tree"
 	if len(c.Args) > 0 {
 		mode = c.Args[0]
@@ -208,6 +218,9 @@ func projLeanLine(c *Case) string {
 		b.WriteString("proj " + hxs(c.RootSpelling))
 	} else {
 		b.WriteString("proj " + hxs(c.Root))
+	}
+	if len(c.Args) > 2 && c.Args[2] == "bans" {
+		b.WriteString(" B:" + c.Args[1])
 	}
 	names := sortedKeys(c.Files)
 	for _, n := range names {
